@@ -1447,10 +1447,11 @@ func Count(s, substr string) int {
 		o := runeCount
 		s = s[i:]
 		// Trim substr prefix from s.
-		for j, r := range s {
+		for j := range s {
 			o--
 			if o == 0 {
-				s = s[j+utf8.RuneLen(r):]
+				_, w := utf8.DecodeRuneInString(s[j:])
+				s = s[j+w:]
 				break
 			}
 		}
